@@ -2,7 +2,7 @@
    Exact cell-level statements at eps = 0. Statements only.
    Annotation.get_overlap(labels=None) is proved below; with a `labels` argument it is the same
    function applied to subset(labels) (C11) and is tied exactly by the correspondence. *)
-From PV Require Import Model.AnnotationOps Proofs.SortedP Proofs.SupportP Proofs.GapsP Proofs.SegmentationP
+From PV Require Import Model.AnnotationOps Proofs.SortedP Proofs.SupportP Proofs.GapsP Proofs.SegmentationP Proofs.SegmentationEpsP
   Proofs.AnnotationInvP Proofs.AnnOverlapP.
 
 Section C10.
@@ -42,6 +42,52 @@ Theorem C10_annotation_get_overlap : forall a, WF 0 (a_tracks a) ->
   (forall k, covers_cell (get_overlap_ann 0 a None) k <-> two_labels_active a k).
 Proof. exact ann_get_overlap_spec. Qed.
 
+(* ---- every time precision eps >= 0 (the library default of one microsecond is eps = 4 in regime K4) ----
+   A stretch no longer than eps is an empty segment for the library; pieces and overlaps that short are not reported,
+   everything else is as above. *)
+Section C10_eps.
+Variable eps : Z.
+Hypothesis Heps : 0 <= eps.
+Variable l : list seg.
+Hypothesis Hl : wf eps l.
+
+Theorem C10_eps_segmentation_pieces : forall p, In p (segmentation eps l) ->
+  en p - st p > eps /\ is_bound l (st p) /\ is_bound l (en p) /\ clean l (st p) (en p) /\
+  (exists r, In r (support eps 0 l) /\ st r <= st p /\ en p <= en r).
+Proof. exact (segmentation_pieces_eps eps Heps l Hl). Qed.
+Theorem C10_eps_segmentation_disjoint : forall p q, In p (segmentation eps l) -> In q (segmentation eps l) ->
+  p = q \/ en p <= st q \/ en q <= st p.
+Proof. exact (segmentation_disjoint_eps eps l). Qed.
+(* each original segment is the union of the pieces inside it, up to stretches between consecutive boundaries
+   that are no longer than eps *)
+Theorem C10_eps_original_is_union_of_pieces : forall s k, In s l -> st s <= k < en s ->
+  (exists p, In p (segmentation eps l) /\ st p <= k < en p /\ st s <= st p /\ en p <= en s) \/
+  (exists a b, consec (bounds_of l) a b /\ a <= k < b /\ b - a <= eps /\ st s <= a /\ b <= en s).
+Proof. exact (segmentation_refines_eps eps Heps l Hl). Qed.
+Theorem C10_eps_segmentation_sorted : wf eps (segmentation eps l).
+Proof. exact (segmentation_wf_eps eps l). Qed.
+
+Theorem C10_eps_get_overlap_shape :
+  separated eps 0 (get_overlap eps l) /\ Forall (ne eps) (get_overlap eps l) /\
+  (forall o, In o (get_overlap eps l) ->
+     (exists a, In a (pair_overlaps eps l) /\ st o = st a) /\ (exists b, In b (pair_overlaps eps l) /\ en o = en b)).
+Proof. exact (get_overlap_eps_shape eps Heps l). Qed.
+Theorem C10_eps_get_overlap_sound : forall k, covers_cell (get_overlap eps l) k ->
+  covered_twice l k \/ in_bridged_gap eps 0 (pair_overlaps eps l) k.
+Proof. exact (get_overlap_eps_sound eps Heps l Hl). Qed.
+Theorem C10_eps_get_overlap_complete : forall s s', In s l -> In s' l -> s <> s' ->
+  nonempty eps (sand s s') = true ->
+  exists o, In o (get_overlap eps l) /\ st o <= Z.max (st s) (st s') /\ Z.min (en s) (en s') <= en o.
+Proof. exact (get_overlap_eps_complete eps Heps l Hl). Qed.
+End C10_eps.
+
+Example C10_eps_nonvacuous :
+  wf 4 [(0,40); (10,20); (10,63); (80,90); (90,110)] /\
+  segmentation 4 [(0,40); (10,20); (10,63); (80,90); (90,110)] = [(0,10); (10,20); (20,40); (40,63); (80,90); (90,110)] /\
+  segmentation 4 [(0,40); (3,40); (38,60)] = [(3,38); (40,60)] /\           (* (0,3) and (38,40) are not reported *)
+  get_overlap 4 [(0,40); (10,20); (10,63); (80,90); (88,110)] = [(10,40)].   (* the overlap (88,90) is not *)
+Proof. split; [split; repeat constructor | vm_compute; repeat split]. Qed.
+
 Example C10_nonvacuous :
   wf 0 [(0,4); (1,2); (1,6); (8,9); (9,11)] /\
   segmentation 0 [(0,4); (1,2); (1,6); (8,9); (9,11)] = [(0,1); (1,2); (2,4); (4,6); (8,9); (9,11)] /\
@@ -55,3 +101,10 @@ Print Assumptions C10_original_is_union_of_pieces.
 Print Assumptions C10_segmentation_sorted.
 Print Assumptions C10_get_overlap.
 Print Assumptions C10_annotation_get_overlap.
+Print Assumptions C10_eps_segmentation_pieces.
+Print Assumptions C10_eps_segmentation_disjoint.
+Print Assumptions C10_eps_original_is_union_of_pieces.
+Print Assumptions C10_eps_segmentation_sorted.
+Print Assumptions C10_eps_get_overlap_shape.
+Print Assumptions C10_eps_get_overlap_sound.
+Print Assumptions C10_eps_get_overlap_complete.
